@@ -21,7 +21,7 @@ type c10Case struct {
 	Perm  []int     `json:"perm"`  // permutation of indices
 	// replacement: record ReplaceAt is replaced by Bad
 	ReplaceAt int     `json:"replace_at"`
-	BadKind   int     `json:"bad_kind"` // 0 none, 1 type cast, 2 two xpath matches, 3 custom function error
+	BadKind   int     `json:"bad_kind"` // 0 none, 1 type cast, 2 two xpath matches, 3 custom function error, 4 malformed row (old csv: a reader-level per-record failure)
 	Bad       gen.Rec `json:"bad"`
 }
 
@@ -44,6 +44,9 @@ func genC10(t *rapid.T) c10Case {
 		if c.Shape.Xform == 2 && c.Shape.IntCol != 0 && (len(c.Shape.Widths) == 0 || c.Shape.Widths[0] >= 4) {
 			kinds = append(kinds, 3)
 		}
+		if c.Shape.Format == "csv" && !c.Shape.ReplaceQuotes {
+			kinds = append(kinds, 4, 4)
+		}
 		if len(kinds) > 0 {
 			c.BadKind = rapid.SampledFrom(kinds).Draw(t, "badKind")
 			c.Bad = gen.DrawRec(t, c.Shape, "bad", 0, gen.ValueOpts{})
@@ -54,6 +57,8 @@ func genC10(t *rapid.T) c10Case {
 				c.Bad.Dup = true
 			case 3:
 				c.Bad.Vals[0] = gen.BoomToken
+			case 4:
+				c.Bad.RawLine = "ab\"cd" + c.Shape.Delim + "x" // a bare quote in an unquoted field
 			}
 		}
 	}
